@@ -563,3 +563,22 @@ def count_paths(node, pred):
             return frozenset(x + 1 for x in st)
         return st
     return eval_walk(node, frozenset([0]), visit, lambda a, b: a | b)
+
+
+# ------------------------------------------------------------------ spelling-independent view of a function's results
+
+def return_alts(fnode):
+    """[(facts, value expression, return node)] for every alternative result of fnode, independent of whether a choice is
+    written as `if c: return A` / `return B` or as `return A if c else B`.  facts: [(expr, polarity)] holding for it."""
+    out = []
+    for r in [n for n in walk_local(fnode) if isinstance(n, ast.Return)]:
+        base = []
+        for t, pol in path_conditions(r, fnode):
+            base += split_conj(t, pol)
+
+        def alts(v, facts):
+            if isinstance(v, ast.IfExp):
+                return alts(v.body, facts + split_conj(v.test, True)) + alts(v.orelse, facts + split_conj(v.test, False))
+            return [(facts, v, r)]
+        out += alts(r.value, base) if r.value is not None else [(base, None, r)]
+    return out
